@@ -32,6 +32,28 @@ def gen(ctx, rng, per_solver):
             dtmin = dtmax * 10.0 ** (-rng.randint(6, 9))
             cases.append(ivpgen.base_case(0, solver, dim, t0, t0 + span, dtmin, dtmax, tol, rhs, y0, work=True,
                                           budget=3000000, max_items=2000000))
+        # hard starts: the first trial step is far too long for the tolerance (violent first rejections)
+        for k in range(max(2, per_solver // 3)):
+            dim = rng.randint(1, 3)
+            span = rng.uniform(1.0, 4.0)
+            rhs, y0, lip = ivpgen.system(rng, dim, span, 0.0, kinds=["lin", "rot", "forcing"])
+            tol = 10.0 ** (-rng.uniform(7.5, 9)) if solver != "bdf2" else 10.0 ** (-rng.uniform(5.5, 7))
+            dtmax = rng.uniform(0.3, 0.5)
+            cases.append(ivpgen.base_case(0, solver, dim, 0.0, span, dtmax * 1e-8, dtmax, tol, rhs, y0, work=True,
+                                          budget=3000000, max_items=2000000))
+        # solutions at rest at the origin (state identically zero) and at rest with zero right-hand side
+        for k in range(2):
+            dim = rng.randint(1, 3)
+            span = rng.uniform(1.0, 6.0)
+            if k == 0:
+                blocks = [{"k": "lin", "p": [vlib.float_to_pair(rng.uniform(-2, -0.2)), vlib.float_to_pair(0.0)]} for _ in range(dim)]
+                y0 = [ivpgen.cpair(0.0) for _ in range(dim)]
+            else:
+                blocks = [{"k": "zero", "p": []} for _ in range(dim)]
+                y0 = [ivpgen.cpair(rng.uniform(-1, 1)) for _ in range(dim)]
+            dtmax = rng.uniform(0.05, 0.5)
+            cases.append(ivpgen.base_case(0, solver, dim, 0.0, span, dtmax * 1e-7, dtmax, 10.0 ** (-rng.uniform(3, 9)),
+                                          {"fam": "blocks", "blocks": blocks}, y0, work=True, budget=3000000, max_items=2000000))
     return cases
 
 
